@@ -23,8 +23,13 @@ SubsetRel(a, nodes, ro, ru, b) ==
       parentTag(m) == IF m.parent = NULL THEN NULL
                       ELSE IF InSeq(nodes, a.muts[m.parent + 1].node) THEN a.muts[m.parent + 1].tag ELSE NULL
   IN
-  {cl \in {"L", "nodes", "edges", "mutations", "sites", "individuals", "populations"} :
+  {cl \in {"L", "nodes", "edges", "mutations", "sites", "individuals", "populations", "individual_parents"} :
     ~ CASE cl = "L" -> a.L = b.L
+        \* a retained individual keeps its parents (expressed through the rows' tags), in order; references
+        \* to individuals that are not retained are dropped from the list (NULL entries stay)
+        [] cl = "individual_parents" -> \A i \in 1..Len(b.ind_rows) :
+              LET j == CHOOSE q \in 1..Len(a.ind_rows) : a.ind_rows[q] = b.ind_rows[i] IN
+              b.ind_parent_tags[i] = SelectSeq(a.ind_parent_tags[j], LAMBDA tg : tg = NULL \/ InSeq(b.ind_rows, tg))
         [] cl = "nodes" -> /\ NumNodes(b) = n
                            /\ \A i \in 1..n : LET u == nodes[i] IN
                                  /\ b.node_tag[i] = a.node_tag[u + 1] /\ b.time[i] = a.time[u + 1] /\ b.rawflags[i] = a.rawflags[u + 1]
@@ -59,8 +64,19 @@ UnionRel(a, o, mp, addpop, b) ==
                       ELSE o.ind_tag[j + 1]
       addedInds == {o.ind_tag[newq[i] + 1] : i \in {q \in 1..Len(newq) : o.ind[newq[q] + 1] # NULL /\ sharedVia(o.ind[newq[q] + 1]) = {}}}
   IN
-  {cl \in {"L", "nodes", "edges", "mutation_rows", "site_positions", "individuals", "populations"} :
+  {cl \in {"L", "nodes", "edges", "mutation_rows", "site_positions", "individuals", "populations", "individual_parents"} :
     ~ CASE cl = "L" -> a.L = b.L
+        \* individuals already in self keep their parents; an added individual brings the parents it has in
+        \* other, where a parent that is shared (referenced by a mapped node) is the corresponding individual of self
+        [] cl = "individual_parents" ->
+              /\ \A i \in 1..Len(a.ind_rows) : b.ind_parent_tags[i] = a.ind_parent_tags[i]
+              /\ \A i \in (Len(a.ind_rows) + 1)..Len(b.ind_rows) :
+                    LET j == CHOOSE q \in 1..Len(o.ind_rows) : o.ind_rows[q] = b.ind_rows[i] IN
+                    Len(b.ind_parent_tags[i]) = Len(o.ind_parents[j]) /\
+                    \A q \in 1..Len(o.ind_parents[j]) : LET P == o.ind_parents[j][q] IN
+                        b.ind_parent_tags[i][q] = (IF P = NULL THEN NULL
+                                                  ELSE IF sharedVia(P) # {} THEN a.ind_tag[mp[(CHOOSE kk \in sharedVia(P) : TRUE) + 1] + 1]
+                                                  ELSE o.ind_rows[P + 1])
         [] cl = "nodes" -> /\ NumNodes(b) = NumNodes(a) + Len(newq)
                            /\ \A u \in NodesOf(a) : b.node_tag[u + 1] = a.node_tag[u + 1] /\ b.time[u + 1] = a.time[u + 1]
                                                     /\ b.rawflags[u + 1] = a.rawflags[u + 1] /\ b.ind_tag[u + 1] = a.ind_tag[u + 1]
